@@ -443,7 +443,7 @@ def wiener_filter_posterior(
     """
     if not isinstance(likelihood, LikelihoodWithModel):
         msg = f"likelihood must be of LikelihoodWithModel type; got {likelihood}"
-        return TypeError(msg)
+        raise TypeError(msg)
     if not model_is_linear and position is None:
         msg = "For nonlinear models a position to linearize must be specified."
         raise ValueError(msg)
